@@ -20,6 +20,11 @@ partial def loop (h : IO.FS.Stream) (nodes : List Node) (r : List Key := ring Cr
       -- removing the last destination of a hashing route is refused; an index beyond the end is an error
       if nodes.length < 2 || i ≥ nodes.length then IO.println "del err"; loop h nodes r
       else IO.println "del ok"; loop h (nodes.eraseIdx i)
+    | ["repoint", i, a] =>
+      -- modDest addr=: the destination keeps its place in the list, its (host, instance) changes, the ring is rebuilt
+      let i := i.toNat!
+      if i ≥ nodes.length then IO.println "repoint err"; loop h nodes r
+      else IO.println "repoint ok"; loop h (nodes.set i (nodeOfAddr a.toUTF8.toList))
     | ["k", name] =>
       match destIndexOn r nodes (arg name) with
       | some i => IO.println s!"k {i}"
